@@ -64,6 +64,13 @@ def main(argv):
                     cmd += ' --families %s' % fam
                 r = subprocess.run('timeout 1800 ' + cmd, shell=True, cwd=VERIF, env=env,
                                    capture_output=True, text=True)
+                if r.returncode == 2:
+                    # stopping at the first violation can stop at one that depends on the
+                    # worker's history (process-global state in the change) and does not
+                    # reproduce in the parent: run the whole batch instead
+                    env.pop('VERIF_STOP_AT_FIRST', None)
+                    r = subprocess.run('timeout 1800 ' + cmd, shell=True, cwd=VERIF, env=env,
+                                       capture_output=True, text=True)
                 classes = sorted({l.split('class=')[1].split(' ')[0]
                                   for l in r.stdout.splitlines() if 'class=' in l})
                 verdict = {0: 'MISSED', 1: 'CAUGHT', 2: 'HARNESS-ERROR'}.get(r.returncode, 'rc=%d' % r.returncode)
